@@ -11,7 +11,7 @@ LEVEL = "exploration"
 TECHNIQUE = "bounded-exhaustive enumeration of (GAF file, haplotag TSV) pairs through phase.run against the line grammar and the TSV contents"
 RULE = (
     "record alphabet: strand in {+,-} x path in {unstable walk, stable intervals, bare contig} x optional fields in {none, cg only, tp + cg, "
-    "tp + NM + cg with cg in the middle} over reads r1, r2 (12 shapes per read); every file of <=N records (N=2 quick, 3 thorough); TSV: "
+    "tp + NM + cg with cg in the middle, a Z value with ':' '%' and a space} over reads r1, r2 (14 shapes per read); every file of <=N records (N=2 quick, 3 thorough); TSV: "
     "every assignment of {H1, H2, none, missing from the TSV, listed twice} to the two reads, with and without the whatshap header line. "
     "evaluations = phase runs; non-trivial = files with >=2 records or a '-' strand or optional fields."
 )
@@ -36,7 +36,7 @@ def bounds(tier):
 
 
 PATHS = [(">s1>s2", 30, 2, 12), (">chr1:0-10>hA#1#c:5-25", 30, 2, 12), ("chr1", 1000, 102, 112)]
-OPTS = [[], ["cg:Z:10="], ["tp:A:P", "cg:Z:4=1X5="], ["tp:A:P", "cg:Z:10=", "NM:i:0"]]
+OPTS = [[], ["cg:Z:10="], ["tp:A:P", "cg:Z:4=1X5="], ["tp:A:P", "cg:Z:10=", "NM:i:0"], ["sp:Z:chr1:1000-2000 50%", "cg:Z:10="]]
 STATES = ["H1", "H2", "none", "missing", "twice"]
 
 
@@ -50,10 +50,15 @@ def alphabet():
     return out
 
 
+TSV_FILLER = [0]  # rows of other reads in front of the rows of r1 / r2 (a whole-genome haplotag table has millions)
+
+
 def tsv_text(states, header):
     lines = []
     if header:
         lines.append("#readname\thaplotype\tphaseset\tchromosome")
+    for i in range(TSV_FILLER[0]):
+        lines.append(f"other_read_{i:07d}\tH{1 + i % 2}\t{1000 + i % 7}\tchr{1 + i % 22}")
     for read, st in zip(("r1", "r2"), states):
         if st == "missing":
             continue
@@ -100,7 +105,7 @@ def judge(res, scratch, recs, states, header, large=False):
     res.evaluations += 1
     case = {"records": [r.line() for r in recs], "states": list(states), "header": header}
     if large:
-        case = {"large": len(recs), "states": list(states), "header": header}
+        case = {"large": len(recs), "states": list(states), "header": header, "tsv_filler": TSV_FILLER[0]}
     if len(recs) >= 2 or any(r.strand == "-" or r.opt for r in recs):
         res.nt(fw.h64(case))
     if out.kind != "ok":
@@ -181,6 +186,13 @@ def run_shard(spec, tier, scratch):
         big = [A[(i * 7) % len(A)] for i in range(2503)]
         judge(res, scratch, big, ("H1", "H2"), header=True, large=True)
         res.count("large_file_records", len(big))
+        # the same with a haplotag table of 2.6 MB in which the rows of r1 / r2 come last
+        TSV_FILLER[0] = 60_000
+        try:
+            judge(res, scratch, big[:40], ("H1", "H2"), header=True, large=True)
+            res.count("large_tsv_rows", 60_000)
+        finally:
+            TSV_FILLER[0] = 0
     if spec["shard"] == 0:
         res.sample({"records": [A[2].line(), A[13].line()], "tsv": tsv_text(("H1", "twice"), True).split("\n")[:-1]})
     return res
@@ -190,6 +202,7 @@ def replay(case, scratch):
     res = fw.ShardResult()
     if "large" in case:
         A = alphabet()
+        TSV_FILLER[0] = case.get("tsv_filler", 0)
         judge(res, scratch, [A[(i * 7) % len(A)] for i in range(case["large"])], tuple(case["states"]), case["header"], large=True)
         return res.failures
     judge(res, scratch, [rgfa.Rec.parse(l) for l in case["records"]], tuple(case["states"]), case["header"])
